@@ -65,8 +65,8 @@ P = {
    text="Every ID attribute is a constant NCName-start prefix + String() of a uuid.NewV4() called in the same builder activation, held in attribute storage the element owns; NewV4 fills all 16 bytes of a fresh array from crypto/rand with the error fatal; version/variant transforms are correct for all 256 byte values and no other byte is overwritten; String() is the 8-4-4-4-12 lower-case hex layout.",
    note="Not decided: non-repetition (a probabilistic consequence of 122 random bits, not a code shape). " + TB, ref="DESIGN.md §3 C18"),
  "C20": dict(tech="sibling struct-tag comparison, decode-target type comparison, value-flow rules on the pre-decoders",
-   text="STRUCTURAL PART ONLY: every field of UnverifiedBaseResponse has the identical xml tag and type in Response; the logout pre-decoder and full validation fill the same type; both pre-decoders decode the base64-decoded input via maybeDeflate with the 5 MiB default into an object allocated inside each attempt and return the successful attempt's object; no library code writes a header field (or a field of the Issuer object) after decoding; on the unsigned-root path the header is decoded before the tree is modified.",
-   note="Explicitly NOT decided: that encoding/xml on the raw bytes and on the re-serialised verified tree select the same attribute / Issuer for documents with duplicates or shadowing (parser behaviour on adversarial inputs). " + TB, ref="DESIGN.md §3 C20"),
+   text="STRUCTURAL PART ONLY: every field of UnverifiedBaseResponse has the identical xml tag and type in Response; the logout pre-decoder and full validation fill the same type; both pre-decoders decode the base64-decoded input via maybeDeflate with the 5 MiB default into an object allocated inside each attempt and return the successful attempt's object; no library code writes a header field (or a field of the Issuer object) after decoding; on the unsigned-root path the header is decoded before the tree is modified; the pre-decoders' decoder input is the same normal form (etree re-serialisation) the validators decode — violated on the pinned tree, recorded as known finding F5 (two KNOWN-FINDING lines, exit 0).",
+   note="Explicitly NOT decided: that encoding/xml on the pre-decoder's input and on the re-serialised (canonicalised) verified tree select the same attribute / Issuer for documents with duplicates or shadowing (parser behaviour on adversarial inputs; attribute order under canonicalisation). Three concrete disagreements caused by decoding raw octets are known (F5). " + TB, ref="DESIGN.md §3 C20"),
 }
 
 NA_REASONS = {}
